@@ -543,6 +543,52 @@ func gppState() {
 			r.Violation("gppp:panic:"+mon.TopLibFrame(st), fmt.Sprintf("panic %v", v), cs)
 		}
 	}
+	// sequence: a call that is refused (or that decrypts garbage) followed by a valid one; the
+	// valid one must give its single-call value whatever came before it
+	for i := 0; i < len(jobs) && i < r.Pick(1200, 12000); i++ {
+		j := jobs[i]
+		var bad []byte
+		kind := i % 8
+		switch kind {
+		case 0: // last block corrupted: padding check fails
+			bad = append([]byte{}, j.raw...)
+			bad[len(bad)-1-rng.IntN(16)] ^= byte(1 + rng.IntN(255))
+		case 1: // random blocks
+			bad = gen.Bytes(rng, 16*(1+rng.IntN(4)))
+		case 2: // not a multiple of the block size
+			bad = gen.Bytes(rng, 1+rng.IntN(15)+16*rng.IntN(3))
+		case 3: // empty
+			bad = nil
+		case 4: // first block corrupted: padding may still be fine, text is garbage
+			bad = append([]byte{}, j.raw...)
+			bad[rng.IntN(16)] ^= 0x80
+		case 5: // truncated by one block
+			bad = append([]byte{}, j.raw[:len(j.raw)-16]...)
+		case 6: // another valid ciphertext with a block appended
+			bad = append(append([]byte{}, j.raw...), gen.Bytes(rng, 16)...)
+		default: // bad base64 (handled below)
+		}
+		cs := map[string]any{"password": j.pw, "refused_first_kind": kind, "refused_first_hex": mon.FullHex(bad)}
+		p, v, st := mon.Guard(func() {
+			if kind == 7 {
+				gppp.GPPPDecryptBase64("!!not base64!!" + j.want)
+			} else if i%2 == 0 {
+				gppp.GPPPDecryptBytes(bad)
+			} else {
+				gppp.GPPPDecryptBase64(base64.StdEncoding.EncodeToString(bad))
+			}
+			da, ea := gppp.GPPPDecryptBytes(append([]byte{}, j.raw...))
+			db, eb := gppp.GPPPDecryptBase64(j.want)
+			enc, ee := gppp.GPPPEncrypt(j.pw)
+			r.Eval(4)
+			if ea != nil || eb != nil || ee != nil || da != j.pw || db != j.pw || enc != j.want {
+				r.Violation("gppp:sequence:after-refused-call", fmt.Sprintf("after a decryption call on a bad ciphertext (kind %d) the next calls give (%q,%v) (%q,%v) (%s,%v) for the cpassword of %q", kind, da, ea, db, eb, enc, ee, j.pw), cs)
+			}
+		})
+		if p {
+			r.Violation("gppp:panic:"+mon.TopLibFrame(st), fmt.Sprintf("panic %v", v), cs)
+		}
+	}
 	var wg sync.WaitGroup
 	for w := 0; w < concurrentCallers; w++ {
 		wg.Add(1)
